@@ -26,6 +26,8 @@ type V4Config struct {
 	ServerIP  string        // optional
 	Lease     time.Duration // pool lease time
 	NilLoader bool          // construct the server with a nil *ebpf.Loader instead of an unloaded one
+	Loader    *ebpf.Loader  // optional: a loader prepared by the harness (e.g. with kernel maps injected); overrides NilLoader
+	DNS       []string      // optional: DNS servers of the pool (default 8.8.8.8)
 	// Sleep advances time by d (inside a synctest bubble: time.Sleep + synctest.Wait).
 	// nil = time.Sleep.
 	Sleep func(d time.Duration)
@@ -87,7 +89,9 @@ const CleanupPeriod = time.Minute
 func NewV4(cfg V4Config) *V4 {
 	lg := zap.NewNop()
 	var loader *ebpf.Loader
-	if !cfg.NilLoader {
+	if cfg.Loader != nil {
+		loader = cfg.Loader
+	} else if !cfg.NilLoader {
 		var err error
 		loader, err = ebpf.NewLoader("lo", lg) // never Load()ed: every map call returns "not loaded"
 		if err != nil {
@@ -95,8 +99,12 @@ func NewV4(cfg V4Config) *V4 {
 		}
 	}
 	pm := dhcp.NewPoolManager(loader, lg)
+	dns := cfg.DNS
+	if dns == nil {
+		dns = []string{"8.8.8.8"}
+	}
 	p, err := dhcp.NewPool(dhcp.PoolConfig{ID: 1, Name: "p1", Network: cfg.Network, Gateway: cfg.Gateway,
-		DNSServers: []string{"8.8.8.8"}, LeaseTime: cfg.Lease, ClientClass: dhcp.ClientClassResidential})
+		DNSServers: dns, LeaseTime: cfg.Lease, ClientClass: dhcp.ClientClassResidential})
 	if err != nil {
 		panic(err)
 	}
